@@ -89,6 +89,39 @@ class Session:
         self.dirty0 = []
         self._lock = threading.Lock()
 
+    def fork_at(self, nevents, root, crash_clients=()):
+        """a copy of this session whose store holds exactly the effects of the first `nevents` recorded events;
+        commands still in progress at that point are marked as crashed. The original is not touched."""
+        import copy
+        f = copy.copy(self)
+        f.root = Path(root)
+        f.root.mkdir(parents=True, exist_ok=True)
+        keep = self.store.events[:self.mark + nevents]
+        objs = dict(self.init_objs)
+        open_cmds = {}
+        for kind, name, data, client in keep[self.mark:]:
+            if kind == 'put':
+                objs[name] = data
+            elif kind == 'del':
+                objs.pop(name, None)
+            elif kind == 'begin':
+                open_cmds[client] = name['p']
+            elif kind in ('end', 'crash'):
+                open_cmds.pop(client, None)
+        st = membackend.Store(objs)
+        st.events = list(keep)
+        for client, p_ in open_cmds.items():
+            st.events.append(('crash', {'p': p_}, None, client))
+        f.world = harness.World(store=st, concurrent=self.world.concurrent, flavour=self.world.flavour)
+        f.world.users = self.world.users
+        f.world.nclients = self.world.nclients + 1000
+        f.store = st
+        f.cids, f.sids, f.defs, f.snapname = dict(self.cids), dict(self.sids), list(self.defs), dict(self.snapname)
+        f.paths, f.versions, f.digest_of = dict(self.paths), dict(self.versions), dict(self.digest_of)
+        f.rng = random.Random(self.seed * 7919 + nevents)
+        f._lock = threading.Lock()
+        return f
+
     # ------------------------------------------------------------ ids
     def pid(self, path):
         path = str(path)
@@ -140,6 +173,8 @@ class Session:
 
     def _run(self, p, kind, user, fn, info, *, fault=False, **kw):
         be = kw.pop('backend', None) or self.world.backend()
+        if getattr(self, 'fault_next', False):
+            fault, self.fault_next = True, False
         self.np = max(self.np, p)
         self._marker('begin', dict(info, p=p, k=kind, u=user), be.client_id)
         o = self.world.command(user, fn, backend=be, **kw)
@@ -567,6 +602,45 @@ def random_history(sess, n, *, names=8, p_snapshot=0.4, p_overlap=0.08, p_delete
                 o = sess.lf(u, S, F)
                 desc.append('lf(%s,%s,%s)->%s' % (u, S, F, o.etype))
     return desc
+
+
+class Jitter:
+    """gate: random small delays so that concurrent backend calls complete in varying orders"""
+
+    def __init__(self, rng, scale=0.002):
+        self.rng, self.scale = rng, scale
+
+    def __call__(self, be, op, name):
+        import time
+        time.sleep(self.rng.random() * self.scale)
+
+
+class DelayPrefix:
+    """gate: backend calls on names with this prefix take longer than all others (adversarial completion order)"""
+
+    def __init__(self, prefix, delay=0.02):
+        self.prefix, self.delay = prefix, delay
+
+    def __call__(self, be, op, name):
+        import time
+        if name.startswith(self.prefix) and op in ('upload', 'upload_stream', 'delete'):
+            time.sleep(self.delay)
+
+
+class FailNth:
+    """gate: the n-th backend call of the process (any operation) fails for good"""
+
+    def __init__(self, n, exc=None):
+        self.n, self.i, self.exc = n, 0, exc
+        self.lock = threading.Lock()
+        self.fired = None
+
+    def __call__(self, be, op, name):
+        with self.lock:
+            self.i += 1
+            if self.i == self.n:
+                self.fired = (op, name)
+                raise (self.exc or OSError('injected permanent failure of %s(%s)' % (op, name)))
 
 
 class KillAfter:
